@@ -34,20 +34,30 @@ def _ev_key(e):
     return [e.op, e.get("kind"), e.get("trial_id"), e.get("level"), e.get("decision"), cfg]
 
 
+def _reset_block_names():
+    """Block-name counters of the GP code are process-global: start them afresh, as in a new process."""
+    from syne_tune.optimizer.schedulers.searchers.bayesopt.gpautograd import gluon
+
+    gluon.NameManager._current.value = gluon.NameManager()
+
+
 def build(t, fam, max_t, n_workers):
-    from syne_tune.config_space import choice, randint, uniform
+    from syne_tune.config_space import choice, finrange, logfinrange, loguniform, randint, uniform
 
     use_mra = fam in ("hb-promotion", "hb-pasha", "hb-cost", "sync-hb", "dehb", "hb-bo-promotion") and t.bool()
     if fam == "fifo-grid":
         cs = {"x": choice(["a", "b", "c"]), "y": randint(0, 3)}
     else:
-        cs = {"x": uniform(0.0, 1.0), "y": randint(0, 4), "z": choice(["u", "v"])}
+        cs = {"x": uniform(0.0, 1.0), "y": randint(0, 4), "z": choice(["u", "v"]), "w": finrange(0.0, 1.0, 6), "v": logfinrange(0.001, 1.0, 4), "u": loguniform(0.001, 1.0)}
     pts = t.weighted([(2, None), (1, []), (2, "some")])
     if pts == "some":
         pts = [{"y": t.int(0, 3)} for _ in range(t.int(1, 3))]
     if fam in GP_FAMILIES:
         # odd and even numbers of normal variates drawn per suggestion (Thompson scores, fantasies)
         opts = dict(GP_OPTS, num_init_candidates=t.choice([6, 5, 7]), num_fantasy_samples=t.choice([2, 1, 3]))
+        if t.bool():
+            # fitting is skipped in some rounds: the skip predicate has a counter, which is part of the snapshot
+            opts.update(opt_skip_init_length=2, opt_skip_period=t.choice([2, 3]))
         base = dict(metric="loss", mode=t.choice(["min", "max"]), random_seed=t.int(0, 10**6), searcher="bayesopt", search_options=opts, points_to_evaluate=pts)
         if fam == "fifo-bo":
             return gen_sched.SchedSpec(fam, "FIFOScheduler", base, dict(cs)), False
@@ -103,6 +113,8 @@ def run(t, fam, kind):
     n_workers = t.int(1, 4)
     spec, use_mra = build(t, fam, max_t, n_workers)
     fam = spec.family
+    if kind == "clone-fresh":
+        _reset_block_names()
     A = spec.build()
     tk = dp.make_time_keeper()
     inner = getattr(A, "scheduler", A)
@@ -147,6 +159,19 @@ def run(t, fam, kind):
     try:
         if kind == "dill":
             B = dill.loads(dill.dumps(A))
+            restored, original = B, A
+        elif kind == "clone-fresh":
+            # what happens after a restart: the snapshot is restored into a newly constructed searcher (block-name counters
+            # as in a fresh process); the scheduler around it is a dill copy; the uninterrupted twin is the original
+            B = dill.loads(dill.dumps(A))
+            state = pickle.loads(pickle.dumps(getattr(A, "scheduler", A).searcher.get_state()))
+            _reset_block_names()
+            F = spec.build()
+            S2 = getattr(F, "scheduler", F).searcher.clone_from_state(state)
+            innerB = getattr(B, "scheduler", B)
+            innerB._searcher = S2
+            if hasattr(S2, "configure_scheduler"):
+                S2.configure_scheduler(innerB)
             restored, original = B, A
         else:
             # the uninterrupted twin is a dill copy; the original gets its searcher replaced by the clone
@@ -215,11 +240,11 @@ def case_clone(t):
 
 def case_gp(t):
     fam = t.choice(GP_FAMILIES)
-    return run(t, fam, t.choice(["dill", "clone"]))
+    return run(t, fam, t.choice(["dill", "clone", "clone-fresh"]))
 
 
 SUBCHECKS = {
     "dill": {"fn": case_dill, "quick": 8000, "thorough": 160000, "required": FAMILIES + ["cut-at-0", "cut-with-paused-trial"]},
     "clone": {"fn": case_clone, "quick": 6000, "thorough": 120000, "required": ["fifo-grid", "fifo-random", "cut-at-0", "allow-duplicates"]},
-    "gp": {"fn": case_gp, "quick": 640, "thorough": 10000, "min_per_shard": 10, "required": ["clone", "dill"]},
+    "gp": {"fn": case_gp, "quick": 960, "thorough": 15000, "min_per_shard": 10, "required": ["clone", "dill", "clone-fresh"]},
 }
